@@ -1032,7 +1032,8 @@ def r32_axioms(run):
     k = z3.Int('k!r32')
     run.axiom(z3.ForAll([k], z3.Implies(z3.And(k <= TWO24, k >= -TWO24), r32(z3.ToReal(k)) == z3.ToReal(k)), patterns=[r32(z3.ToReal(k))]))
     run.axiom(z3.ForAll([a], z3.And(z3.Implies(a >= 0, r32(a) >= 0), z3.Implies(a <= 0, r32(a) <= 0)), patterns=[r32(a)]))
-    run.axiom(z3.ForAll([a, b], z3.Implies(a <= b, r32(a) <= r32(b)), patterns=[z3.MultiPattern(r32(a), r32(b))]))
+    # (monotonicity is instantiated pairwise on the ground applications only; as a quantified multi-pattern axiom it is quadratic in the
+    # array terms and no obligation needs it under a bound variable)
 
 
 def cast32(it, x):
